@@ -47,6 +47,9 @@ type replicator struct {
 	concurrency int64
 
 	tasks map[cid.Cid]queuedState
+	// missing holds the hashes whose fetch failed: entries that link to them
+	// may be in the log already, so nothing would ask for them again
+	missing map[cid.Cid]struct{}
 
 	sem       *semaphore.Weighted
 	queue     *processQueue
@@ -94,6 +97,7 @@ func NewReplicator(store storeInterface, concurrency uint, opts *Options) (Repli
 		concurrency: int64(concurrency),
 		store:       store,
 		tasks:       make(map[cid.Cid]queuedState),
+		missing:     make(map[cid.Cid]struct{}),
 		queue:       &processQueue{},
 		logger:      opts.Logger,
 		tracer:      opts.Tracer,
@@ -174,6 +178,28 @@ func (r *replicator) Load(ctx context.Context, entries []ipfslog.Entry) {
 
 	// process and wait the whole queue to complete
 	r.muProcess.Lock()
+
+	// every request is also the occasion to try again what could not be
+	// fetched earlier
+	for hash := range r.missing {
+		delete(r.missing, hash)
+
+		if exist := r.AddHashToQueue(hash); exist {
+			continue
+		}
+
+		verifhook.At("repl.enqueue", r, r.store, hash, "hash")
+		wg.Add(1)
+
+		go func() {
+			if err := r.processOne(ctx, &wg); err != nil {
+				r.logger.Warn("unable to process entry", zap.Error(err))
+			}
+
+			wg.Done()
+		}()
+	}
+
 	for i, entry := range entries {
 		if exist := r.AddEntryToQueue(entry); exist {
 			continue
@@ -219,12 +245,13 @@ func (r *replicator) processOne(ctx context.Context, wg *sync.WaitGroup) error {
 		return err
 	}
 
-	if err := r.processItems(ctx, wg, e); err != nil {
+	err = r.processItems(ctx, wg, e)
+	if err != nil {
 		r.logger.Warn("process item ended", zap.Error(err))
 	}
 
 	// mark this process has done
-	r.processEntryDone(e)
+	r.processEntryDone(e, err == nil)
 	return nil
 }
 
@@ -298,6 +325,15 @@ func (r *replicator) processHash(ctx context.Context, item processItem) ([]cid.C
 		return nil, fmt.Errorf("unable to fetch log: %w", err)
 	}
 
+	// the fetcher does not report a block it could not read: what tells a
+	// failed fetch from a fetch that had nothing to bring is whether the
+	// entry asked for has arrived (or is in the log already)
+	if _, fetched := l.Get(hash); !fetched {
+		if _, inLog := r.store.OpLog().Get(hash); !inLog {
+			return nil, fmt.Errorf("entry %s could not be fetched", hash)
+		}
+	}
+
 	r.muBuffer.Lock()
 	r.buffer = append(r.buffer, l)
 	r.muBuffer.Unlock()
@@ -351,13 +387,20 @@ func (r *replicator) waitForProcessSlot(ctx context.Context) (e processItem, err
 	return
 }
 
-func (r *replicator) processEntryDone(item processItem) {
+func (r *replicator) processEntryDone(item processItem, fetched bool) {
 	r.muProcess.Lock()
 
 	r.taskInProgress--
 
-	// remove hash from queued list
-	r.tasks[item.GetHash()] = stateFetched
+	if fetched {
+		// remove hash from queued list
+		r.tasks[item.GetHash()] = stateFetched
+	} else {
+		// a hash whose fetch failed is not done: it is offered again with the
+		// next request
+		delete(r.tasks, item.GetHash())
+		r.missing[item.GetHash()] = struct{}{}
+	}
 	verifhook.At("repl.done", r, r.store, item.GetHash(), r.queue.Len(), r.taskInProgress)
 
 	// if there no more task to proceed, trigger idle method
